@@ -43,7 +43,7 @@ def oracle(tier, rng, deep=False):
     import skglm.datafits as sd, skglm.penalties as sp, skglm.solvers as ss
     failures, samples = [], []
     ev = nontriv = 0
-    nrep = 30 if tier == "quick" and not deep else 200
+    nrep = 30 if tier == "quick" and not deep else (90 if tier == "quick" else 200)   # quick + broken obligation: 3x the quick search
     for _ in range(nrep):
         mode = rng.choice(["warm", "warm", "path", "refit", "refit", "sqrt_path"])
         dname = rng.choice(["Quadratic", "Logistic", "Huber"])
